@@ -529,6 +529,24 @@ def run(ctx) -> None:
     early = [x for x in ast.walk(lp) if isinstance(x, (ast.Break, ast.Return))]
     ctx.ob("C11.R4-every-component-resolved", lp, not early, "the loop visits every component (no break/return)" if not early else
            "the validation loop can stop early (break/return): components after the first problem are not checked")
+    # no component is skipped before it is resolved: inside the loop every path from the start of an iteration back to the loop head
+    # passes the resolution call (or the test that sets '$import' pseudo-components aside), exception edges apart
+    c_cv = CFG(cv)
+    for_nodes = [n for n in c_cv.nodes if n.kind == "for" and n.ast is lp]
+    res_nodes = match.nodes_calling(c_cv, lambda c: last_attr(c) == "get_component_configuration")
+    res_nodes = [n for n in res_nodes if any(n.ast is x or any(n.ast is y for y in ast.walk(x)) for x in ast.walk(lp))]
+    imp_tests = [n for n in c_cv.nodes if n.kind == "test" and n.ast is not None and isinstance(n.ast, ast.Compare)
+                 and isinstance(n.ast.left, ast.Constant) and n.ast.left.value == "$import" and any(n.ast is y for y in ast.walk(lp))]
+    if for_nodes and res_nodes:
+        body_entry = [m_ for (m_, lab) in for_nodes[0].succ if lab not in ("F", "exit", "else")]
+        back = c_cv.reach(body_entry, blocked=res_nodes + imp_tests, ignore_labels=("exc", "except", "raise", "uncaught"))
+        skipped = for_nodes[0].id in back
+        ctx.ob("C11.R4-every-component-resolved", lp, not skipped,
+               "no component leaves the iteration before it was resolved" if not skipped else
+               "an iteration of the validation loop can return to the loop head without resolving the component (a 'continue' ahead of "
+               "get_component_configuration): the components it skips - e.g. every replica but the first - are never checked, an undefined "
+               "variable or a mistyped value that only replica 1 selects ('%(array)s[%(replica)s]') loads and fails later",
+               construct="validate: every component reaches get_component_configuration")
     ids = match.assigned_value(cv, CIDS)
     ok = any(isinstance(v, ast.Call) and last_attr(v) == "get_component_identifiers" and v.args and isinstance(v.args[0], ast.Constant) and v.args[0].value is True for v in ids)
     ctx.ob("C11.R4-every-component-resolved", ids[0] if ids else cv, ok, "identifiers are recomputed from the description (duplicates are detected)" if ok else
